@@ -279,7 +279,8 @@ TEMPTING = ['__builtins__', 'getattr', 'eval', 'exec', 'open', 'type', 'vars', '
 LOCALS = ['o', 'p', 'q', 'd', 'l', 't', 's', 'n', 'e', 'z', 'fl', 'from', 'to']
 MEMBERS = PUBLIC + PRIVATE + ['__class__', '__dict__', '__init__', '__getattribute__', 'format_map', 'upper', 'join', 'get',
                               'keys', 'values', 'append', 'copy', 'index', 'count', 'real', 'bit_length', 'walk',
-                              'gi_frame', 'f_builtins', 'f_globals', 'nosuch', 'startswith', 'strip', 'split']
+                              'gi_frame', 'f_builtins', 'f_globals', 'nosuch', 'startswith', 'strip', 'split',
+                              '\uff3fx', '\ufe33secret', '\uff3f_class__', '\ufe4f_y']
 BINOPS = ['+', '-', '*', '/', '//', '%', '<<', '>>', ' in ', '<', '>', '<=', '>=', '==', '!=', '&', '^', '|', ' and ', ' or ']
 UNOPS = ['-', '+', 'not ', '~']
 
@@ -552,9 +553,26 @@ def ops_probe(ops):
 FRAME_ESCAPE = ("((((((list(zip((iter((g.walk), 0)), [1])))[0])[0]).gi_frame).f_builtins)['getattr'])(g, '_x')")
 
 
+# code points that Unicode compatibility normalisation (NFKC/NFKD) turns into "_", a zero-width joiner, a combining mark:
+# spellings of a private name that do not START with the ASCII underscore but could be made to resolve to it
+UNDERSCORE_LIKE = ['\uff3f', '\ufe33', '\ufe34', '\ufe4d', '\ufe4e', '\ufe4f']
+CONFUSABLE = ([u + n[1:] for u in UNDERSCORE_LIKE for n in ('_x', '_secret', '__y', '_Trip__y', '__class__', '__dict__')]
+              + ['\u200d_x', 'x\u0301', '\uff58', '\u2139d'])
+
+
+def confusable_family():
+    out = []
+    for n in CONFUSABLE:
+        out += [f'o.{n}', f'(o).{n}', f'p.child.{n}', f'(l[0]).{n}', f'o.{n}.real', f'(o.{n}) == 42', f'o . {n}',
+                f"'{{0.{n}}}'.format(o)", f"o['{n}']", f'{n}', f'o.pub.{n}']
+    return out
+
+
 def gen_cases(tier, rng, ops=()):
     cases = []
     e0, e1, e2 = std_env(0), std_env(1), data_env()
+    for s in confusable_family():
+        cases.append({'expr': s, 'env': e0, 'stream': 'confusable'})
     for s in ops_probe(ops):
         cases.append({'expr': s, 'env': e0, 'stream': 'operators'})
     for s in d12_family():
